@@ -41,8 +41,40 @@ def replay(col, case):
         col.count(1)
         if not allclose(got, want, 1e-9):
             col.violation(label + "-wrong-value", dict(rep, expected=want.tolist(), observed=got.tolist()))
+    # both covariances at a tiny absolute scale (2^-40, exact in binary): S scales, G and A do not (ScaleLaw)
+    c = 2.0 ** -40
+    for label, fn, want in (("error_covariance_matrix", lambda: error_covariance_matrix(K, Sa * c, Sy * c), S * c),
+                            ("retrieval_gain_matrix", lambda: retrieval_gain_matrix(K, Sa * c, Sy * c), G),
+                            ("averaging_kernel_matrix", lambda: averaging_kernel_matrix(K, Sa * c, Sy * c), A)):
+        try:
+            got = np.asarray(fn(), dtype=float)
+        except Exception as ex:
+            col.violation(label + "-raises-" + type(ex).__name__ + "-small-scale", dict(rep, observed=repr(ex)[:200]))
+            continue
+        col.count(1)
+        if got.shape != want.shape or not np.all(np.abs(got - want) <= 1e-8 * np.maximum(np.abs(want).max(), 1e-300)):
+            col.violation(label + "-wrong-value-small-scale", dict(rep, scale="2^-40", expected=want.tolist(), observed=got.tolist()))
     if m != n or np.linalg.matrix_rank(K) < min(m, n):
         col.nontrivial.add(json.dumps([case["K"], case["Sa"], case["Sy"]]))
+
+
+def limit_family(col, _):
+    """K = (1 0), Sa = I, Sy = (c): closed forms model-checked for rational c (OemProps!LimitFamily), evaluated here for
+    very small noise, where a truncating pseudo-inverse would drop the unobserved direction."""
+    from typhon.retrieval.oem import (averaging_kernel_matrix, error_covariance_matrix, retrieval_gain_matrix)
+    K = np.array([[1.0, 0.0]])
+    Sa = np.eye(2)
+    for c in (1.0, 1e-6, 1e-12, 1e-14):
+        d = 1.0 + c
+        want = {"S": np.array([[c / d, 0.0], [0.0, 1.0]]), "G": np.array([[1.0 / d], [0.0]]), "A": np.array([[1.0 / d, 0.0], [0.0, 0.0]])}
+        got = {"S": error_covariance_matrix(K, Sa, np.array([[c]])), "G": retrieval_gain_matrix(K, Sa, np.array([[c]])),
+               "A": averaging_kernel_matrix(K, Sa, np.array([[c]]))}
+        col.count(3)
+        for key in want:
+            if not np.all(np.abs(np.asarray(got[key]) - want[key]) <= 1e-9 * max(1.0, c) + 1e-9 * np.abs(want[key])):
+                col.violation("limit-family-wrong-" + key, {"abstract": {"K": [[1, 0]], "S_a": "I", "S_y": c},
+                                                            "expected": want[key].tolist(), "observed": np.asarray(got[key]).tolist()})
+    col.nontrivial.add("limit-family")
 
 
 def run(ctx):
@@ -60,7 +92,7 @@ def run(ctx):
             sample = 0 if n * m <= 2 else (12 if quick else (0 if n * m <= 4 else 150))
             with open(os.path.join(d, "MCOem.cfg"), "w") as f:
                 f.write("CONSTANTS N = %d M = %d NSample = %d\nINIT Init\nNEXT Next\nINVARIANT Identities\nINVARIANT Spectrum\n"
-                        "INVARIANT Emit\n" % (n, m, sample))
+                        "INVARIANT ScaleLaw\nINVARIANT LimitFamily\nINVARIANT Emit\n" % (n, m, sample))
             res = ctx.tlc(d, "OemProps", "MCOem.cfg", workers=8, seed=ctx.seed, timeout=2400)
             got = list(res.tagged("CASE"))
             if len(got) != res.distinct:          # PrintT lines of parallel workers must not have been torn
@@ -69,6 +101,7 @@ def run(ctx):
     if len(cases) < 100:
         raise MachineryError("too few OEM cases")
     pmap(ctx, replay, cases)
+    pmap(ctx, limit_family, [0], procs=1)
     ctx.traces += len(cases)
     c = next(c for c in cases if len(c["K"]) == 2 and len(c["K"][0]) == 3)
     ctx.sample({k: c[k] for k in ("K", "Sa", "Sy", "S", "A")})
